@@ -30,9 +30,7 @@ pub open spec fn anchor_up(p: int) -> int { if price_at(tick_of(p)) == p { tick_
 /// C18: a bound left as a sentinel (i32::MIN for the lower, i32::MAX for the upper bound) is derived from the current price: the nearest usable tick
 /// that keeps the whole range on one side of the price (lower: first spacing multiple whose price is >= the current price; upper: last spacing
 /// multiple whose price is <= the current price); two sentinels are rejected; full-range-only pools and explicit bounds pass through unchanged
-//@ fn util/shared.rs resolve_one_sided_position_ticks -> r
-    requires tick_spacing > 0, price_ok(current_sqrt_price as int),
-    ensures ({
+pub open spec fn one_sided_spec(tick_lower_index: i32, tick_upper_index: i32, tick_spacing: u16, current_sqrt_price: u128, r: Result<(i32, i32)>) -> bool {
         let lo_s = tick_lower_index == i32::MIN; let up_s = tick_upper_index == i32::MAX; let s = tick_spacing as int; let p = current_sqrt_price as int;
         if (!lo_s && !up_s) || tick_spacing >= 32768 { r == Ok::<(i32, i32), Error>((tick_lower_index, tick_upper_index)) }
         else if lo_s && up_s { r == err::<(i32, i32)>(ErrorCode::InvalidTickIndex) }
@@ -44,7 +42,11 @@ pub open spec fn anchor_up(p: int) -> int { if price_at(tick_of(p)) == p { tick_
             let u = snap_down(tick_of(p), s);
             if u < -443636 { r == err::<(i32, i32)>(ErrorCode::InvalidTickIndex) }
             else { r == Ok::<(i32, i32), Error>((tick_lower_index, u as i32)) && u % s == 0 && price_at(u) <= p && (tick_ok(u + s) ==> price_at(u + s) > p) }
-        } }),
+        }
+}
+//@ fn util/shared.rs resolve_one_sided_position_ticks -> r pub
+    requires tick_spacing > 0, price_ok(current_sqrt_price as int),
+    ensures one_sided_spec(tick_lower_index, tick_upper_index, tick_spacing, current_sqrt_price, r),
 //@ rewrite /let snap_tick_down = \|t: i32\| -> i32 \{/ => /let snap_tick_down = |t: i32| -> (o: i32) requires -500_000 <= t <= 500_000, 0 < tick_spacing_i32 <= 65535, ensures o as int == snap_down(t as int, tick_spacing_i32 as int), {/
 //@ rewrite /let snap_tick_up = \|t: i32\| -> i32 \{/ => /let snap_tick_up = |t: i32| -> (o: i32) requires -500_000 <= t <= 500_000, 0 < tick_spacing_i32 <= 65535, ensures o as int == snap_up(t as int, tick_spacing_i32 as int), {/
 //@ inject at /^\s*\{/
